@@ -107,6 +107,8 @@ enum PrintAnswer {
     /// of it; every later connection is served normally (a printer waking up, a firewall dropping state)
     ResetEarly,
     ResetLate,
+    /// any IPP status code
+    Status(u16),
 }
 
 const BLOCKING3: [&str; 10] = [
@@ -186,7 +188,7 @@ impl StateAnswer {
 
 impl PrintAnswer {
     fn success(&self) -> bool {
-        matches!(self, PrintAnswer::Ok0000 | PrintAnswer::Ok0001)
+        matches!(self, PrintAnswer::Ok0000 | PrintAnswer::Ok0001 | PrintAnswer::Status(0..=2))
     }
     fn script(&self, id: u32) -> Script {
         let status = match self {
@@ -196,6 +198,7 @@ impl PrintAnswer {
             PrintAnswer::Err0400 => 0x0400,
             PrintAnswer::Err0500 => 0x0500,
             PrintAnswer::Err0507 => 0x0507,
+            PrintAnswer::Status(c) => *c,
             _ => 0,
         };
         let mut m = Msg::new(0x0101, status, id);
@@ -482,11 +485,72 @@ fn judge(c: &Case, o: &Observed, port: u16, contents: &[Vec<u8>]) -> Result<(), 
     }
 }
 
+/// Print-Job answered with every status code of a sweep: {0, 1, 2} must give exit 0; EVERY code of 0x0100..=0x03ff
+/// (outside the successful class, none of them named by RFC 8011), every named error code, and a few far ones must
+/// give a non-zero exit status. (0x0003..=0x00ff are left out: the statement does not settle them.)
+fn status_sweep_codes() -> Vec<u16> {
+    let mut v: Vec<u16> = vec![0, 1, 2];
+    v.extend(0x0100..=0x03ffu16);
+    v.extend(0x0400..=0x0420u16);
+    v.extend(0x0500..=0x050cu16);
+    v.extend([0x04ff, 0x05ff, 0x0600, 0x1000, 0x7fff, 0x8000, 0xff00, 0xffff]);
+    v
+}
+
+fn base_case() -> Case {
+    Case { stdin: false, content: 2, job_name: None, user: None, options: vec![], no_check: true, header: false, state: StateAnswer::Idle, print: PrintAnswer::Ok0000 }
+}
+
+fn tool_setup(ctx: &Ctx) -> (std::path::PathBuf, std::path::PathBuf, Vec<Vec<u8>>) {
+    let bin = ctx.verif_dir.join("target/util/release/ipputil");
+    if !bin.exists() {
+        eprintln!("MACHINERY-ERROR {:?} not built", bin);
+        std::process::exit(2);
+    }
+    let scratch = ctx.verif_dir.join(format!("target/c18-scratch-{}", std::process::id()));
+    let _ = std::fs::create_dir_all(&scratch);
+    (bin, scratch, contents(ctx.tier))
+}
+
+/// `hnet-native C16`: the success classification as the command-line tool reports it (its exit status), for hcore
+/// to absorb into C16. Only `print`, whose exit status the statement of C18 pins.
+pub fn run_status_sweep_child(ctx: &Ctx) -> ! {
+    let (bin, scratch, cont) = tool_setup(ctx);
+    let cases: Vec<Case> = status_sweep_codes().into_iter().map(|c| Case { print: PrintAnswer::Status(c), ..base_case() }).collect();
+    let mut total = Stats::new();
+    for p in par_range(ctx.threads, cases.len() as u64, 4, Stats::new, |st, i| {
+        let c = &cases[i as usize];
+        st.evaluations += 1;
+        st.traces += 1;
+        st.transitions += 1;
+        let case = json!({"cli": true, "print_answer": format!("{:?}", c.print)});
+        match run_util(c, &bin, &scratch, &cont, i) {
+            Ok((o, port)) => {
+                st.states.insert(i);
+                st.nontrivial.insert(i);
+                match judge(c, &o, port, &cont) {
+                    Ok(()) => st.outcome(if o.exit_code == Some(0) { "cli-reports-success" } else { "cli-reports-failure" }),
+                    Err((k, d)) => st.violate(format!("ipputil:{}", k), format!("{}: {}", case, d), case.clone()),
+                }
+            }
+            Err(e) => {
+                eprintln!("MACHINERY-ERROR {} for {}", e, case);
+                std::process::exit(2);
+            }
+        }
+    }) {
+        total.merge(p);
+    }
+    let _ = std::fs::remove_dir_all(&scratch);
+    println!("CLI-REPORT {}", total.to_json());
+    std::process::exit(0)
+}
+
 pub fn run(ctx: &Ctx) -> ! {
     let mut rep = Report::new(
         ctx,
         "exploration",
-        "the real ipputil binary (built from /repo's working tree) against scripted loopback printers. (A) every list of 0..2 (3) options from {a=true, a=false, n=0, n=-1, n=2147483647, n=2147483648, x=1.5, k=v=w, e=, t=True, page-ranges=1-2,5-6, n=1,2} (duplicate keys included), plus 24 typing witnesses used alone and next to one other option (zero-padded and negative decimals up to 20 digits, the 32-bit limits and their neighbours, -0, 0x10, 1e3, '5 ', non-ASCII digits, 1_000, TRUE, yes, 'true ', 1, 0; the expected type comes from a decimal rule written without the standard integer parser) x -j {absent, job, 'jöb name'} x -u {absent, u}; (B) content {0 B, 1 B, %PDF + every byte value, 8191/8192/8193 B, 1 MiB+1 (8 MiB+1)} x {-f file, stdin} x -H {none, X-A=b}; (C) printer scripts: Get-Printer-Attributes answered {idle/none, processing/informational, stopped, idle + each of the 10 blocking reasons as scalar and inside a set, IPP 0x0503 / 0x0400 / 0x0500, HTTP 500} with the state check on, and Print-Job answered {0x0000, 0x0001, 0x040a, 0x0400, 0x0500, 0x0507, HTTP 403, connection cut, the Print-Job connection RESET after 64 bytes / after the whole request with every later connection served normally (x every content size x file / stdin)} with the check on (ready printer) and off. Oracle: request sequence seen by the peer (state query first unless -n; nothing submitted to a stopped / blocked / failing printer; exactly one Print-Job with document octets = input, job-name / requesting-user-name as name, options typed by their text, last wins per key, custom header present) and exit status 0 <=> every exchange succeeded with a successful IPP status. distinct = command line x printer script",
+        "the real ipputil binary (built from /repo's working tree) against scripted loopback printers. (A) every list of 0..2 (3) options from {a=true, a=false, n=0, n=-1, n=2147483647, n=2147483648, x=1.5, k=v=w, e=, t=True, page-ranges=1-2,5-6, n=1,2} (duplicate keys included), plus 24 typing witnesses used alone and next to one other option (zero-padded and negative decimals up to 20 digits, the 32-bit limits and their neighbours, -0, 0x10, 1e3, '5 ', non-ASCII digits, 1_000, TRUE, yes, 'true ', 1, 0; the expected type comes from a decimal rule written without the standard integer parser) x -j {absent, job, 'jöb name'} x -u {absent, u}; (B) content {0 B, 1 B, %PDF + every byte value, 8191/8192/8193 B, 1 MiB+1 (8 MiB+1)} x {-f file, stdin} x -H {none, X-A=b}; (C) printer scripts: Get-Printer-Attributes answered {idle/none, processing/informational, stopped, idle + each of the 10 blocking reasons as scalar and inside a set, IPP 0x0503 / 0x0400 / 0x0500, HTTP 500} with the state check on, and Print-Job answered {0x0000, 0x0001, 0x040a, 0x0400, 0x0500, 0x0507, a sweep of 825 status codes (0-2, EVERY code of 0x0100-0x03ff, all named client / server errors, far codes), HTTP 403, connection cut, the Print-Job connection RESET after 64 bytes / after the whole request with every later connection served normally (x every content size x file / stdin)} with the check on (ready printer) and off. Oracle: request sequence seen by the peer (state query first unless -n; nothing submitted to a stopped / blocked / failing printer; exactly one Print-Job with document octets = input, job-name / requesting-user-name as name, options typed by their text, last wins per key, custom header present) and exit status 0 <=> every exchange succeeded with a successful IPP status. distinct = command line x printer script",
     );
     let bin = ctx.verif_dir.join("target/util/release/ipputil");
     if !bin.exists() {
@@ -557,6 +621,10 @@ pub fn run(ctx: &Ctx) -> ! {
         for no_check in [false, true] {
             cases.push(Case { no_check, print: p, user: Some("u"), options: vec![0, 2], ..base.clone() });
         }
+    }
+    // every status code of the sweep as the Print-Job answer
+    for code in status_sweep_codes() {
+        cases.push(Case { print: PrintAnswer::Status(code), ..base.clone() });
     }
     // resets with every content size, from a file and from standard input (a one-shot stream cannot be re-read)
     for p in [PrintAnswer::ResetEarly, PrintAnswer::ResetLate] {
